@@ -1005,3 +1005,137 @@ def gen_forward_table():
            'def droppedIn (files : List String) : List (String × String × String × String) := dropped.filter fun r => files.contains r.1\n\n'
            'end PhotVerif.Gen.ForwardTable\n')
     return 'ForwardTable.lean', src, out
+
+# ---------------------------------------------------------------- shared mutable state (C09)
+
+_MUTATORS = {'append', 'extend', 'insert', 'pop', 'remove', 'clear', 'add', 'update', 'setdefault', 'popitem', 'sort', 'reverse', 'discard'}
+
+
+def _mutable_literal(v):
+    if isinstance(v, (ast.List, ast.Dict, ast.Set, ast.ListComp, ast.DictComp, ast.SetComp)):
+        return True
+    return (isinstance(v, ast.Call) and isinstance(v.func, ast.Name)
+            and v.func.id in ('list', 'dict', 'set', 'defaultdict', 'OrderedDict', 'bytearray', 'deque'))
+
+
+def _mutations(fn, is_target):
+    """names / attributes `a` (as classified by is_target(expr) -> key or None) that the function mutates in place"""
+    hit = []
+    for x in ast.walk(fn):
+        if isinstance(x, ast.Call) and isinstance(x.func, ast.Attribute) and x.func.attr in _MUTATORS:
+            a = is_target(x.func.value)
+            if a:
+                hit.append(a)
+        if isinstance(x, (ast.Assign, ast.AugAssign)):
+            for tg in (x.targets if isinstance(x, ast.Assign) else [x.target]):
+                if isinstance(tg, ast.Subscript):
+                    a = is_target(tg.value)
+                    if a:
+                        hit.append(a)
+                elif isinstance(x, ast.AugAssign):
+                    a = is_target(tg)
+                    if a:
+                        hit.append(a)
+        if isinstance(x, ast.Delete):
+            for tg in x.targets:
+                if isinstance(tg, ast.Subscript):
+                    a = is_target(tg.value)
+                    if a:
+                        hit.append(a)
+    return hit
+
+
+def gen_shared_state_table():
+    """State shared between objects: (a) class attributes bound to a mutable literal in the class body and mutated in place by a method
+    (through self / cls / the class name / type(self), or through a local alias of one of these), (b) module-level names bound to a mutable
+    literal and mutated in place by a function or method (directly, after `global`, or through an attribute / local alias bound to the bare
+    name).  Either makes what one object reports depend on what other objects did before (seed C09-r8)."""
+    import glob
+    root = os.path.join(REPO, 'photutils')
+    cls_rows, mod_rows, src_all = [], [], ''
+    for f in sorted(glob.glob(root + '/**/*.py', recursive=True)):
+        if '/tests/' in f or '/extern/' in f:
+            continue
+        txt = open(f).read()
+        src_all += txt
+        t = ast.parse(txt)
+        rel = os.path.relpath(f, root)
+        # (a) class level
+        for c in ast.walk(t):
+            if not isinstance(c, ast.ClassDef):
+                continue
+            attrs = set()
+            for st in c.body:
+                if isinstance(st, ast.Assign) and _mutable_literal(st.value):
+                    attrs |= {tg.id for tg in st.targets if isinstance(tg, ast.Name)}
+                if isinstance(st, ast.AnnAssign) and st.value is not None and _mutable_literal(st.value) and isinstance(st.target, ast.Name):
+                    attrs.add(st.target.id)
+            if not attrs:
+                continue
+            for m in c.body:
+                if not isinstance(m, (ast.FunctionDef, ast.AsyncFunctionDef)):
+                    continue
+
+                def is_attr(e, attrs=attrs, c=c):
+                    if not (isinstance(e, ast.Attribute) and e.attr in attrs):
+                        return None
+                    v = e.value
+                    if isinstance(v, ast.Name) and v.id in ('self', 'cls', c.name):
+                        return e.attr
+                    if isinstance(v, ast.Attribute) and v.attr == '__class__':
+                        return e.attr
+                    if isinstance(v, ast.Call) and isinstance(v.func, ast.Name) and v.func.id == 'type':
+                        return e.attr
+                    return None
+                alias = {x.targets[0].id: is_attr(x.value) for x in ast.walk(m)
+                         if isinstance(x, ast.Assign) and len(x.targets) == 1 and isinstance(x.targets[0], ast.Name) and is_attr(x.value)}
+                # an instance that first rebinds `self.<attr> = <fresh>` owns its object; such classes are not listed
+                rebinds = {tg.attr for x in ast.walk(c) if isinstance(x, ast.Assign) for tg in x.targets
+                           if isinstance(tg, ast.Attribute) and isinstance(tg.value, ast.Name) and tg.value.id == 'self' and tg.attr in attrs}
+
+                def target(e, is_attr=is_attr, alias=alias):
+                    return is_attr(e) or (alias.get(e.id) if isinstance(e, ast.Name) else None)
+                for a in _mutations(m, target):
+                    if a not in rebinds:
+                        cls_rows.append((rel, c.name, a, m.name))
+        # (b) module level
+        g = set()
+        for st in t.body:
+            if isinstance(st, ast.Assign) and _mutable_literal(st.value):
+                g |= {tg.id for tg in st.targets if isinstance(tg, ast.Name) and not tg.id.startswith('__')}
+        if not g:
+            continue
+        for fn in ast.walk(t):
+            if not isinstance(fn, (ast.FunctionDef, ast.AsyncFunctionDef)):
+                continue
+            local = {a.arg for a in fn.args.args + fn.args.kwonlyargs + fn.args.posonlyargs}
+            local |= {tg.id for x in ast.walk(fn) if isinstance(x, ast.Assign) for tg in x.targets if isinstance(tg, ast.Name)}
+            local -= {n for x in ast.walk(fn) if isinstance(x, ast.Global) for n in x.names}
+            alias = {}
+            for x in ast.walk(fn):
+                if isinstance(x, ast.Assign) and isinstance(x.value, ast.Name) and x.value.id in g and x.value.id not in local:
+                    for tg in x.targets:
+                        alias[ast.unparse(tg)] = x.value.id
+
+            def target(e, g=g, local=local, alias=alias):
+                if isinstance(e, ast.Name) and e.id in g and e.id not in local:
+                    return e.id
+                return alias.get(ast.unparse(e)) if isinstance(e, (ast.Name, ast.Attribute)) else None
+            for a in _mutations(fn, target):
+                mod_rows.append((rel, fn.name, a))
+            for x in ast.walk(fn):
+                if isinstance(x, ast.Global):
+                    mod_rows += [(rel, fn.name, n) for n in x.names if n in g]
+    # attribute aliases of a module-level mutable (self.x = G) mutated in another method of the same file
+    cls_rows, mod_rows = sorted(set(cls_rows)), sorted(set(mod_rows))
+    out = ('/- GENERATED by tools/extract_tables.py from every module of photutils (mutable state shared between objects) '
+           f'(sha256/16 {sha(src_all)}). DO NOT EDIT. -/\n'
+           'import PhotVerif.Model.Prelude\nnamespace PhotVerif.Gen.SharedState\n\n'
+           '/-- (file, class, class attribute bound to a mutable literal in the class body, method that mutates it in place) -/\n'
+           'def classLevel : List (String × String × String × String) :=\n  ['
+           + ',\n   '.join(f'("{a}", "{b_}", "{c}", "{d}")' for a, b_, c, d in cls_rows) + ']\n\n'
+           '/-- (file, function, module-level name bound to a mutable literal that the function mutates in place or rebinds via `global`) -/\n'
+           'def moduleLevel : List (String × String × String) :=\n  ['
+           + ',\n   '.join(f'("{a}", "{b_}", "{c}")' for a, b_, c in mod_rows) + ']\n\n'
+           'end PhotVerif.Gen.SharedState\n')
+    return 'SharedState.lean', src_all, out
